@@ -15,6 +15,9 @@
 using namespace arch;
 using refmp::Val; using RT = refmp::T;
 
+enum class C17Color { Red, Green, Blue };
+REGISTER_ENUM(C17Color, { { C17Color::Red, "Red" }, { C17Color::Green, "Green" }, { C17Color::Blue, "Blue" } })
+
 namespace {
 
 enum VK { VRequired, VRange, VMinSize, VMaxSize, VEmail, VPhone, VCustomLoaded, VCustomRequired };
@@ -63,12 +66,13 @@ struct Inner {
 };
 struct Rec {
 	int32_t i = -77; double d = -77.5; std::string s = "<s>"; std::vector<int32_t> v{ -7, -7 }; std::string e = "<e>"; std::string p = "<p>"; uint8_t u = 77;
-	Inner in; std::vector<Inner> arr; std::map<std::string, Inner> mp;
+	Inner in; std::vector<Inner> arr; std::map<std::string, Inner> mp; C17Color col = C17Color::Blue; std::string at = "<at>";
 	template <class A> void Serialize(A& a) {
 		const bool lam = g_spec->lambda;
+		if constexpr (can_serialize_attribute_v<A>) a << AttributeValue("at", at, SLOTS("at"));   // XML only: a validated attribute
 		a << KeyValue("i", i, SLOTS("i"), [lam](const int32_t& val, bool loaded) -> std::optional<std::string> { if (lam && loaded && val == 13) return "unlucky"; return std::nullopt; })
 		  << KeyValue("d", d, SLOTS("d")) << KeyValue("s", s, SLOTS("s")) << KeyValue("v", v, SLOTS("v")) << KeyValue("e", e, SLOTS("e")) << KeyValue("p", p, SLOTS("p")) << KeyValue("u", u, SLOTS("u"))
-		  << KeyValue("in", in, SLOTS("in")) << KeyValue("arr", arr, SLOTS("arr")) << KeyValue("mp", mp, SLOTS("mp"));
+		  << KeyValue("in", in, SLOTS("in")) << KeyValue("arr", arr, SLOTS("arr")) << KeyValue("mp", mp, SLOTS("mp")) << KeyValue("col", col, SLOTS("col"));
 	}
 };
 struct RecCsv {
@@ -228,6 +232,8 @@ Spec gen_spec(vf::Src& s, bool csv) {
 		sp.f["in"] = gen_slots(s, { VRequired, VCustomRequired, VCustomLoaded });
 		sp.f["arr"] = gen_slots(s, { VRequired, VMinSize, VMaxSize });
 		sp.f["mp"] = gen_slots(s, { VRequired, VMinSize, VMaxSize });
+		sp.f["col"] = gen_slots(s, { VRequired, VRequired, VCustomRequired, VCustomLoaded });
+		sp.f["at"] = gen_slots(s, { VRequired, VMinSize, VMaxSize, VCustomLoaded });
 		sp.f["q"] = gen_slots(s, { VRequired, VRange, VCustomLoaded });
 		sp.f["r"] = gen_slots(s, { VRequired, VMinSize, VMaxSize });
 	}
@@ -298,10 +304,15 @@ template <class A> void run_object(vf::Ctx& c, int archId) {
 			default: { std::vector<std::pair<Val, Val>> mm; for (auto& x : doc.mp) mm.push_back({ refmp::mkStr(x.first), inner_val(x.second, c.src, archId) }); v = refmp::mkMap(mm); } }
 		m.push_back({ refmp::mkStr(kKeys[k]), v });
 	}
+	const St colSt = gen_state(c.src, allowNull); const int colV = static_cast<int>(c.src.draw(3)); static const char* colNames[] = { "Red", "Green", "Blue" };
+	if (colSt != Absent) m.push_back({ refmp::mkStr("col"), colSt == Null ? refmp::mkNil() : colSt == Mismatch ? refmp::mkStr(c.src.coin() ? "Purple" : "Gre") : refmp::mkStr(colNames[colV]) });   // an unregistered name is a mismatch (skipped)
 	if (c.src.chance(1, 3)) for (size_t k = m.size(); k > 1; k--) std::swap(m[k - 1], m[c.src.draw(k)]);   // field order of the document is free
 	std::string bytes; Cfg mem; Outcome so = dyn::save<A>(refmp::mkMap(m), bytes, mem); if (!so.ok()) c.fail("saving the document failed", so.str());
+	// XML: an attribute of the root element, present or absent (inserted into the start tag of the saved document)
+	const bool atPresent = archId == XML && c.src.chance(2, 3); std::string atV; if (archId == XML) { atV = letters(c.src, 1 + near_size(c.src, sl("at"), 8)); if (atPresent) { const size_t p0 = bytes.find("<root"); if (p0 == std::string::npos) c.fail("saving the document failed", "no root element"); bytes.insert(p0 + 5, " at=\"" + atV + "\""); } }
 	// expectation, in load order
 	Expected ex; auto ld = [&](int k) { return doc.st[k] == Present; };
+	if (archId == XML) { Facts f; f.loaded = atPresent; f.size = atV.size(); f.pred = atV.size() % 2 != 0; eval_field(ex, "/at", "at", f, sp); }
 	{ Facts f; f.loaded = ld(0); f.num = doc.i; f.pred = doc.i % 2 != 0; eval_field(ex, "/i", "i", f, sp); }
 	{ Facts f; f.loaded = ld(1); f.num = doc.d; f.pred = doc.d < 0; eval_field(ex, "/d", "d", f, sp); }
 	{ Facts f; f.loaded = ld(2); f.size = doc.s.size(); f.pred = doc.s.size() % 2 != 0; eval_field(ex, "/s", "s", f, sp); }
@@ -312,6 +323,7 @@ template <class A> void run_object(vf::Ctx& c, int archId) {
 	if (ld(7)) eval_inner(ex, "/in", doc.in, sp); { Facts f; f.loaded = ld(7); f.pred = true; eval_field(ex, "/in", "in", f, sp); }
 	if (ld(8)) for (size_t k = 0; k < doc.arr.size(); k++) eval_inner(ex, vf::cat("/arr/", k), doc.arr[k], sp); { Facts f; f.loaded = ld(8); f.size = doc.arr.size(); eval_field(ex, "/arr", "arr", f, sp); }
 	if (ld(9)) for (auto& x : doc.mp) eval_inner(ex, "/mp/" + x.first, x.second, sp); { Facts f; f.loaded = ld(9); f.size = doc.mp.size(); eval_field(ex, "/mp", "mp", f, sp); }
+	{ Facts f; f.loaded = colSt == Present; f.pred = true; eval_field(ex, "/col", "col", f, sp); }
 	// load
 	Cfg cfg; cfg.stream = c.src.coin(); cfg.streamKind = cfg.stream ? static_cast<int>(c.src.draw(archId == MSGPACK ? 2 : 3)) : 0; cfg.chunk = 1 + c.src.draw(40);
 	cfg.opt.mismatchedTypesPolicy = MismatchedTypesPolicy::Skip; cfg.opt.overflowNumberPolicy = OverflowNumberPolicy::Skip;
@@ -330,6 +342,7 @@ template <class A> void run_object(vf::Ctx& c, int archId) {
 		chk(ld(0) ? rec.i == doc.i : rec.i == -77, "i"); chk(ld(1) ? rec.d == doc.d : rec.d == -77.5, "d"); chk(ld(2) ? rec.s == doc.s : rec.s == "<s>", "s"); if (ld(3)) chk(rec.v == doc.v, "v");
 		chk(ld(4) ? rec.e == doc.e : rec.e == "<e>", "e"); chk(ld(5) ? rec.p == doc.p.text : rec.p == "<p>", "p"); chk(ld(6) ? rec.u == doc.u : rec.u == 77, "u");
 		auto chkIn = [&](const Inner& got, const InnerDoc& w, const char* f) { chk(w.q == Present ? got.q == w.qv : got.q == -77, f); chk(w.r == Present ? got.r == w.rv : got.r == "<r>", f); };
+		chk(colSt == Present ? static_cast<int>(rec.col) == colV : rec.col == C17Color::Blue, "col"); if (archId == XML) chk(atPresent ? rec.at == atV : rec.at == "<at>", "at");
 		if (ld(7)) chkIn(rec.in, doc.in, "in");
 		if (ld(8)) { chk(rec.arr.size() == doc.arr.size(), "arr.size"); for (size_t k = 0; k < doc.arr.size() && k < rec.arr.size(); k++) chkIn(rec.arr[k], doc.arr[k], "arr[k]"); }
 		if (ld(9)) { chk(rec.mp.size() == doc.mp.size(), "mp.size"); for (auto& x : doc.mp) { auto it = rec.mp.find(x.first); chk(it != rec.mp.end(), "mp key"); if (it != rec.mp.end()) chkIn(it->second, x.second, "mp[k]"); } }
@@ -373,7 +386,7 @@ void run_csv(vf::Ctx& c) {
 
 } // namespace
 
-#define C17_RULE "object with 10 fields (int32, double, string, vector, e-mail string, phone string, uint8, nested object, array of objects, map of objects), each field with 0..3 runtime-chosen validators out of Required / Range / MinSize / MaxSize / Email / PhoneNumber / custom functors (+ a lambda), default or custom messages; document: every field present (values at, just inside, just outside each bound; e-mails and phones built by construction with a known verdict incl. the 64/63/255 length limits), absent, null or mismatched (skipped), free field order; maxValidationErrors in {0,1,2,3,4,8}; memory and 3 kinds of streams; oracle = reference model of the documented rules predicting failing paths and messages in load order; non-trivial = at least one validator fails"
+#define C17_RULE "object with 12 fields (int32, double, string, vector, e-mail string, phone string, uint8, nested object, array of objects, map of objects, registered enum, and for XML a string attribute), each field with 0..3 runtime-chosen validators out of Required / Range / MinSize / MaxSize / Email / PhoneNumber / custom functors (+ a lambda), default or custom messages; document: every field present (values at, just inside, just outside each bound; e-mails and phones built by construction with a known verdict incl. the 64/63/255 length limits), absent, null or mismatched (skipped), free field order; maxValidationErrors in {0,1,2,3,4,8}; memory and 3 kinds of streams; oracle = reference model of the documented rules predicting failing paths and messages in load order; non-trivial = at least one validator fails"
 VF_PROPERTY(validation_msgpack, 4, C17_RULE) { run_object<MsgPackArchive>(c, MSGPACK); }
 VF_PROPERTY(validation_json, 4, "same through JSON") { run_object<JsonArchive>(c, JSON); }
 VF_PROPERTY(validation_xml, 3, "same through XML (no nulls; mismatch = unparsable text / element with children)") { run_object<XmlArchive>(c, XML); }
